@@ -3,7 +3,7 @@
 repository with the seam header force-included, duplicates the objects once per simulated MPI rank
 (objcopy --prefix-symbols), redirects the seams (threads, clocks, tmpfile, interposed cross-module
 calls) and links everything with the harness.  Builds are cached by content hash."""
-import hashlib, os, shutil, subprocess, sys, glob, json
+import hashlib, os, time, shutil, subprocess, sys, glob, json
 from concurrent.futures import ThreadPoolExecutor
 
 VERIF = os.path.dirname(os.path.dirname(os.path.abspath(__file__)))
@@ -85,11 +85,22 @@ def build(repo, variant, verbose=False):
     out = os.path.join(BUILD_ROOT, "%s-%s" % (variant, hh))
     exe = os.path.join(out, "sim")
     if os.path.exists(exe):
+        try:
+            os.utime(out)
+        except OSError:
+            pass
         return exe
-    # prune older builds of this variant
+    # prune older builds of this variant (and abandoned temporary directories) unless used recently: another check, e.g. on a
+    # scratch copy of the sources, may be running from them
+    now = time.time()
     for old in glob.glob(os.path.join(BUILD_ROOT, variant + "-*")):
-        if os.path.basename(old)[len(variant) + 1:].isalnum():
-            shutil.rmtree(old, ignore_errors=True)
+        rest = os.path.basename(old)[len(variant) + 1:]
+        if rest.split(".tmp")[0].isalnum() and len(rest.split(".tmp")[0]) == 16:
+            try:
+                if now - os.stat(old).st_mtime > 1800:
+                    shutil.rmtree(old, ignore_errors=True)
+            except OSError:
+                pass
     tmp = out + ".tmp%d" % os.getpid()
     shutil.rmtree(tmp, ignore_errors=True)
     os.makedirs(tmp)
